@@ -141,5 +141,16 @@ CovRenamedAtQuit    == ~(phase = "done" /\ \E k \in 1..Len(after) : after[k] \no
 CovRefusedDeleted   == ~(cmd.v = "RETR" /\ rep.c = "err" /\ ref.marks # {} /\ Tokens(cmd.a) = <<<<49>>>> /\ 1 \in ref.marks)
 CovVanishedRetr     == ~(cmd.v = "RETR" /\ rep.c = "err" /\ ref.gone # {} /\ ref.marks = {} /\ Tokens(cmd.a) = <<<<49>>>> /\ N >= 1)
 CovMixedQuit        == ~(cmd.v = "QUIT" /\ rep.c = "mix")
-CovRsetUnmarks      == ~(cmd.v = "RSET" /\ ref.marks = {} /\ \E i \in 1..Len(m) : last # 0)
+CovRsetUnmarks      == ~(cmd.v = "LIST" /\ cmd.a = <<>> /\ ref.marks = {} /\ N = 3 /\ last = 0 /\ fs = {1} /\ rep.b = Listing(files, Ident(N), {}, FALSE))
+\* always TRUE; prints a line for every witness state so that the check can see that each branch was reached
+Witnessed ==
+  /\ (~CovRetrDotStuffed => PrintT("COV RetrDotStuffed"))
+  /\ (~CovTopLimited     => PrintT("COV TopLimited"))
+  /\ (~CovDeletedAtQuit  => PrintT("COV DeletedAtQuit"))
+  /\ (~CovRenamedAtQuit  => PrintT("COV RenamedAtQuit"))
+  /\ (~CovRefusedDeleted => PrintT("COV RefusedDeleted"))
+  /\ (~CovVanishedRetr   => PrintT("COV VanishedRetr"))
+  /\ (~CovMixedQuit      => PrintT("COV MixedQuit"))
+  /\ (~CovRsetUnmarks    => PrintT("COV RsetUnmarks"))
+  /\ (phase = "done" /\ ~ref.quit /\ ref.marks # {} /\ ref.gone = {} /\ Len(after) = N => PrintT("COV DroppedKeepsMarked"))
 =============================================================================
